@@ -82,6 +82,30 @@ class Ctx:
             self.undecided(self.prop, 'analysis:' + label, None, 'internal error: %s\n%s' % (e, traceback.format_exc()[-1200:]))
         return None
 
+    def inherit(self, src_pid, select, newrule, who, cache={}):
+        """Obligations of another property's rules about a callee this property depends on: the selected obligations
+        (select(ob) -> bool) of `src_pid` are copied under rule `newrule` with instance 'dependency:<instance>'."""
+        import importlib
+        key = (id(self.prog), src_pid)
+        if key not in cache:
+            sub = Ctx(src_pid, self.tier, self.prog)
+            try:
+                importlib.import_module('lpv.props.' + src_pid).check(self.prog, sub)
+                cache[key] = sub
+            except Exception as e:
+                cache[key] = e
+        sub = cache[key]
+        if isinstance(sub, Exception):
+            self.undecided(newrule, 'dependency:' + src_pid, None, '%s rules could not be evaluated: %s' % (src_pid, sub))
+            return 0
+        n = 0
+        for o in sub.obs:
+            if select(o):
+                n += 1
+                det = ('%s inherit%s: ' % (who, '' if who.endswith('s') else 's')) + o.detail if o.status == VIOLATED else o.detail
+                self.obs.append(Ob(newrule, 'dependency:' + o.instance, o.status, o.where, det, o.witness if o.status == VIOLATED else None))
+        return n
+
     def decide(self, rule, instance, fn, ok, detail_ok, detail_bad=None, witness=None, line=None, form=None):
         if ok:
             self.holds(rule, instance, fn, detail_ok, line, form)
